@@ -1558,6 +1558,7 @@ theorem diskOK_step {s : St} (hs : Inv s) (hd : DiskOK s) (op : Op) : DiskOK (st
   | addStream d t => exact diskOK_addStream hs hd d t
   | editStream k d t r => exact diskOK_editStream hs hd k d t r
   | delStream k => exact diskOK_delStream hd k
+  | setDefaults k v => simp only [step, setDefaults]; split <;> exact hd
   | upload k st su c => exact diskOK_upload hs hd k st su c
   | index m => exact diskOK_index hd m
   | editMedia k m t => exact diskOK_editMedia hs hd k m t
@@ -1588,6 +1589,7 @@ theorem inv_step_all {s : St} (hs : Inv s) (op : Op) : Inv (step s op).1 := by
   | addStream d t => exact inv_addStream hs d t
   | editStream k d t r => exact inv_editStream hs k d t r
   | delStream k => exact inv_delStream hs k
+  | setDefaults k v => simp only [step, setDefaults]; split <;> exact hs
   | upload k st su c => exact inv_upload hs k st su c
   | index m => exact inv_index hs m
   | editMedia k m t => exact inv_editMedia hs k m t
